@@ -56,6 +56,9 @@ func (v *Verifier) newUnit(fn *ssa.Function, opts UnitOpts) *Unit {
 		}
 		u.Pkg = p.Pkg
 	}
+	if c != nil && c.Opts != nil && c.Opts["mode"] == "bv" {
+		u.W.IntBV = true
+	}
 	if u.MaxPaths == 0 {
 		u.MaxPaths = 4096
 	}
